@@ -32,8 +32,8 @@ EAGER = ("sort", "dedup", "mat")
 
 def budget(tier):
     if tier == "quick":
-        return {"cases": 12000, "workers": 8, "watchdog_s": 900}
-    return {"cases": 500000, "workers": 16, "watchdog_s": 3600}
+        return {"cases": 100000, "workers": 8, "watchdog_s": 1800}
+    return {"cases": 4000000, "workers": 16, "watchdog_s": 3600, "budget_s": 600}
 
 
 def gen_case(rng, tier):
